@@ -234,8 +234,6 @@ class ExactGP(GP):
         except KeyError:
             fantasy_kwargs = {}
 
-        full_output = super().__call__(*full_inputs, **kwargs)
-
         # Copy model without copying training data or prediction strategy (since we'll overwrite those)
         old_pred_strat = self.prediction_strategy
         old_train_inputs = self.train_inputs
@@ -253,6 +251,11 @@ class ExactGP(GP):
             self.train_inputs = old_train_inputs
             self.train_targets = old_train_targets
             self.likelihood = old_likelihood
+
+        # The joint prior is evaluated by the copy: its (lazily evaluated) kernel matrices become part of the
+        # fantasy model's prediction strategy and must refer to the fantasy model's own modules, not to the
+        # source's, whose hyperparameters may change before the fantasy model makes its first prediction
+        full_output = super(ExactGP, new_model).__call__(*full_inputs, **kwargs)
 
         new_model.likelihood = old_likelihood.get_fantasy_likelihood(**fantasy_kwargs)
         new_model.prediction_strategy = old_pred_strat.get_fantasy_strategy(
